@@ -1,0 +1,139 @@
+//go:build verif
+
+// Bounded stand-in for C15: a repeat family in which the hit found from one trapezoid covers a later one. The
+// trapezoid lying between them seeds an unrelated exact repeat, which must still be aligned and reported
+// (the covered-trapezoid marking of dp/kernel.go must flag the covered trapezoid, not another one).
+package pals
+
+import (
+	"fmt"
+	"math/rand"
+	"os"
+	"testing"
+
+	"github.com/biogo/biogo/align/pals/filter"
+	"github.com/biogo/biogo/alphabet"
+	"github.com/biogo/biogo/morass"
+	"github.com/biogo/biogo/seq/linear"
+)
+
+func d3Rand(r *rand.Rand, n int) []byte {
+	b := make([]byte, n)
+	for i := range b {
+		b[i] = "ACGT"[r.Intn(4)]
+	}
+	return b
+}
+
+func d3Other(r *rand.Rand, c byte) byte {
+	for {
+		if d := "ACGT"[r.Intn(4)]; d != c {
+			return d
+		}
+	}
+}
+
+func TestVerifBounded_C15_RepeatFamily(t *testing.T) {
+	r := rand.New(rand.NewSource(1))
+	tg := d3Rand(r, 14000)
+	q := d3Rand(r, 7000)
+	x1, y, x2 := d3Rand(r, 3000), d3Rand(r, 200), d3Rand(r, 500)
+
+	// Diverged copy of X1: 100 single base deletions, then 30 single base
+	// insertions, then 500 unchanged bases.
+	var x1q []byte
+	for i := 0; i < 1500; i++ {
+		if i%15 == 7 {
+			continue
+		}
+		x1q = append(x1q, x1[i])
+	}
+	for i := 1500; i < 2500; i++ {
+		x1q = append(x1q, x1[i])
+		if i%33 == 5 {
+			x1q = append(x1q, "ACGT"[r.Intn(4)])
+		}
+	}
+	x1q = append(x1q, x1[2500:]...)
+	// Diverged copy of Y: every 9th base substituted (no shared 9-mers).
+	yq := append([]byte(nil), y...)
+	for i := 4; i < len(yq); i += 9 {
+		yq[i] = d3Other(r, yq[i])
+	}
+
+	R := append(append(append([]byte(nil), x1...), y...), x2...)
+	Rq := append(append(append([]byte(nil), x1q...), yq...), x2...)
+	copy(tg[1960:], R)
+	copy(q[300:], Rq)
+	copy(tg[9000:], x1[2550:2950]) // the second, exact 400 bp repeat
+
+	// Where the 400 bp stretch sits in the query.
+	qz := -1
+	for i := 0; i+400 <= len(q); i++ {
+		if string(q[i:i+400]) == string(x1[2550:2950]) {
+			qz = i
+			break
+		}
+	}
+	if qz < 0 {
+		t.Fatal("setup: 400 bp stretch not intact in query")
+	}
+
+	ts := linear.NewSeq("t", alphabet.BytesToLetters(tg), alphabet.DNA)
+	qs := linear.NewSeq("q", alphabet.BytesToLetters(q), alphabet.DNA)
+	m, err := morass.New(filter.Hit{}, "verifc15fam", os.TempDir(), 1<<16, false)
+	if err != nil {
+		t.Fatal(err)
+	}
+	defer m.CleanUp()
+	p := New(ts, qs, false, m, 0, nil, nil)
+	if err := p.Optimise(165, 0.9); err != nil {
+		t.Fatal(err)
+	}
+	if err := p.BuildIndex(); err != nil {
+		t.Fatal(err)
+	}
+	hits, err := p.Align(false)
+	if err != nil {
+		t.Fatal(err)
+	}
+	traps := p.Trapezoids()
+
+	covers := func(ab, ae, bb, be int) bool {
+		return ab <= 9000+40 && ae >= 9400-40 && bb <= qz+40 && be >= qz+400-40
+	}
+
+	// Control: the filter did deliver a seed for the 400 bp repeat, and
+	// aligning from that seed alone reports it.
+	var seed *filter.Trapezoid
+	for i, tr := range traps {
+		if tr.Bottom <= qz+20 && tr.Top >= qz+380 && tr.Left <= qz-9000 && qz-9000 <= tr.Right {
+			seed = &traps[i]
+		}
+	}
+	if seed == nil {
+		t.Fatal("control: filter produced no trapezoid for the 400 bp repeat")
+	}
+	alone, err := p.AlignFrom(filter.Trapezoids{*seed}, false)
+	if err != nil {
+		t.Fatal(err)
+	}
+	ok := false
+	for _, h := range alone {
+		ok = ok || covers(h.Abpos, h.Aepos, h.Bbpos, h.Bepos)
+	}
+	if !ok {
+		t.Fatal("control: repeat not found even from its own trapezoid")
+	}
+
+	// The actual check.
+	found := false
+	for _, h := range hits {
+		found = found || covers(h.Abpos, h.Aepos, h.Bbpos, h.Bepos)
+	}
+	if !found {
+		t.Errorf("exact 400 bp repeat target[9000:9400] x query[%d:%d] (min length 165, min identity 0.9) "+
+			"has a filter trapezoid %+v but is missing from the hits returned by Align: %+v", qz, qz+400, *seed, hits)
+	}
+	fmt.Printf("BOUNDED name=C15.repeat-family cases=1 nontrivial=1 exhaustive=false domain=%q\n", "one constructed pair (14 kb target, 7 kb query): a 3.7 kb diverged repeat whose hit covers a later trapezoid, and an exact 400 bp repeat seeded by the trapezoid in between; the 400 bp repeat must be reported")
+}
